@@ -2,7 +2,10 @@
 // named Go types: Parser.String()).
 package gramreg
 
-import "github.com/alecthomas/participle/v2/lexer"
+import (
+	"github.com/alecthomas/participle/v2"
+	"github.com/alecthomas/participle/v2/lexer"
+)
 
 var Lexer = lexer.MustSimple([]lexer.SimpleRule{
 	{Name: "Ident", Pattern: `[a-zA-Z]`},
@@ -19,3 +22,46 @@ type Entry func() (string, error)
 var Entries = map[string]Entry{}
 
 func Register(id string, e Entry) { Entries[id] = e }
+
+// HistoryError reports that Parser.String() changed with the history of the parser.
+type HistoryError struct{ Fresh, AfterUse, FirstAfterUse string }
+
+func (h *HistoryError) Error() string { return "Parser.String() depends on what the parser did before" }
+
+// UseInputs fail (or succeed) at different places of most small grammars over this lexer.
+var UseInputs = []string{"a", "a a", "5", ";", "a ; a", "", "a 5 ;", "# a", "b a 5 5", "a ; ; 5 b"}
+
+func use[T any](p *participle.Parser[T]) {
+	for _, in := range UseInputs {
+		func() {
+			defer func() { _ = recover() }()
+			if _, err := p.ParseString("f", in); err != nil {
+				_ = err.Error() // formatting an error renders parts of the grammar
+			}
+		}()
+	}
+}
+
+// Describe returns Parser.String() of a freshly built parser for T and checks that it is the same after the
+// parser has been used (parses, formatted errors), and on a second parser whose first String() call comes
+// only after such use.
+func Describe[T any](opts ...participle.Option) (string, error) {
+	opts = append([]participle.Option{participle.Lexer(Lexer)}, opts...)
+	p, err := participle.Build[T](opts...)
+	if err != nil {
+		return "", err
+	}
+	fresh := p.String()
+	use(p)
+	after := p.String()
+	q, err := participle.Build[T](opts...)
+	if err != nil {
+		return "", err
+	}
+	use(q)
+	first := q.String()
+	if fresh != after || fresh != first {
+		return fresh, &HistoryError{fresh, after, first}
+	}
+	return fresh, nil
+}
